@@ -96,7 +96,10 @@ package sm2
 // step A5 is on t = KDF(x2 || y2, klen), the value c2 holds at that point.
 // randomPoint is assumed to touch only memory it allocates (and the random source).
 //@ func randomPoint trusted
-//@   ensures err == nil ==> k != nil && p != nil
+//@   requires c != nil && c.N != nil
+//@   ensures err == nil ==> k != nil && p != nil && ghost(ptv, p) == SBMUL(ghost(natv, k)) && 1 <= ghost(natv, k) && ghost(natv, k) < MODV(objof(c.N))
+//@   fresh k
+//@   fresh p
 //@   modifies nothing
 
 //@ func encryptSM2EC property C07
@@ -155,5 +158,23 @@ package sm2
 //@ func (*PrivateKey).inverseOfPrivateKeyPlus1 property C06
 //@   requires priv != nil && priv.D != nil && c != nil && c.N != nil
 //@   ensures err == nil ==> result0 != nil
+//@   heapnonnil
+//@   modifies priv.inverseOfKeyPlus1
+
+// signing (GB/T 32918.2 6.1) over the assumed arithmetic: the values handed to the encoder are
+// r = (e + x1) mod n and s = (1+d)^-1 * (k - r*d) mod n for the k and (x1, y1) = [k]G of the last
+// attempt, with r != 0, r + k != 0 (mod n) and s != 0 - the retry conditions of steps A5 and A6.
+//@ func signSM2EC property C06
+//@   requires c != nil && c.N != nil && priv != nil && priv.D != nil && MODV(objof(c.N)) > 1
+//@   let N := MODV(objof(c.N))
+//@   bind after call inverseOfPrivateKeyPlus1#1: DINV := ghost(natv, result0)
+//@   bind after call hashToNat#1: E0 := ghost(natv, e)
+//@   bind after call randomPoint#1: K0 := ghost(natv, result0)
+//@   bind after call randomPoint#1: X1 := PX(ghost(ptv, result1))
+//@   bind after call SetBytes#1: DV := ghost(natv, result0)
+//@   loop 1 invariant ghost(natv, e) == E0 && ghost(natv, inverseDPlus1) == DINV && e != nil && inverseDPlus1 != nil
+//@   assert before call encodeSignature#1: BEV(arr(arg0), offof(arg0), len(arg0)) == (X1 % N + E0) % N && BEV(arr(arg0), offof(arg0), len(arg0)) != 0
+//@   assert before call encodeSignature#1: (K0 + BEV(arr(arg0), offof(arg0), len(arg0))) % N != 0
+//@   assert before call encodeSignature#1: BEV(arr(arg1), offof(arg1), len(arg1)) == MULM((K0 - MULM(DV, BEV(arr(arg0), offof(arg0), len(arg0)), N)) % N, DINV, N) && BEV(arr(arg1), offof(arg1), len(arg1)) != 0
 //@   heapnonnil
 //@   modifies everything
